@@ -772,6 +772,11 @@ func writeEvidence(env Env, p Property, tier string, seed uint64, aggs []*phaseA
 		return err
 	}
 	dir := filepath.Join(env.VerifDir, "evidence")
+	if r := os.Getenv("VERIF_REPO"); r != "" && filepath.Clean(r) != "/repo" {
+		// a run against a scratch copy (mutant, seeded change) is not evidence
+		// about /repo: keep it out of the committed evidence directory
+		dir = filepath.Join(env.OutRoot, "evidence-scratch")
+	}
 	if err := os.MkdirAll(dir, 0o755); err != nil {
 		return err
 	}
